@@ -39,8 +39,40 @@ def rowOf (j : Json) : Except String Row := do
     | _ => .error "delayed entry must be [delay, markers]"
   pure ⟨t, ms, ds⟩
 
+def shapeName : ShapeErr → String
+  | .noDef => "ONSET_NO_DEF_TAG_FOUND"
+  | .tooManyDefs => "ONSET_TOO_MANY_DEFS"
+  | .wrongNumberGroups => "ONSET_WRONG_NUMBER_GROUPS"
+  | .tagOutsideGroup => "ONSET_TAG_OUTSIDE_OF_GROUP"
+  | .defUnmatched => "ONSET_DEF_UNMATCHED"
+  | .placeholderWrong => "ONSET_PLACEHOLDER_WRONG"
+
+/-- child of a top-level group: ["anchor", kind] | ["def", ext] | ["delay"] | ["tag"] | ["group", [ext…]] -/
+def childOf (j : Json) : Except String Child := do
+  match ← asArr j with
+  | [Json.str "anchor", Json.str k] => pure (.anchor (← kindOf k))
+  | [Json.str "def", Json.str e] => pure (.defTag e.toList)
+  | [Json.str "delay"] => pure .delay
+  | [Json.str "tag"] => pure .tag
+  | [Json.str "group", des] => do
+      let ds ← (← asArr des).mapM fun d => match d with
+        | Json.str e => pure e.toList
+        | _ => .error "def-expand extension must be a string"
+      pure (.group ds)
+  | _ => .error "bad child"
+
 def handle (op : String) (j : Json) : Option (Except String Json) :=
   match op with
+  | "c10.shape" => some do
+      let groups ← (← getArr j "groups").mapM fun g => do (← asArr g).mapM childOf
+      let defs ← (← getArr j "defs").mapM fun d => do
+        match ← asArr d with
+        | [Json.str n, Json.bool tv] => pure (n.toList, tv)
+        | _ => .error "def must be [folded name, takes_value]"
+      let look : Temporal.Str → Option Bool := fun n => (defs.find? (·.1 == n)).map (·.2)
+      pure <| jobj [("kinds", jarr ((validateOnsetOffset look foldAscii groups).map fun e => Json.str (shapeName e))),
+                    ("per_group", jarr (groups.map fun g =>
+                        jarr ((groupShapeIssues look foldAscii g).map fun e => Json.str (shapeName e))))]
   | "c10.run" => some do
       let h ← (← getArr j "history").mapM markersOf
       pure <| jobj [("errors", errsJson (run foldAscii [] 0 h))]
